@@ -122,7 +122,10 @@ def run(ctx, P):
         src = clone(cs)
         handed = [as_form(s, P["form"] if j == 0 else FORMS[j % 3], **e) for j, (s, e) in enumerate(members)]
         if guest:
-            handed.append(build_any(("ind", "SMA", dict(period=2)), timeframe=guest, name_suffix="guest"))
+            # (the guest's NAME is a proper prefix of the name of the member whose timeframe it shares: 'WMA_4_T' next to 'WMA_4_T2', as SMA_5 is of SMA_50)
+            host_j = 1 if guest == "T2" else 2          # the member that lives on the guest's timeframe
+            first_name = build_any(members[host_j][0], **members[host_j][1]).name
+            handed.append(build_any(("ind", "SMA", dict(period=2)), timeframe=guest, fullname_override=first_name[:-1]))
         if P.get("late"):
             hx = Hexital("hx", src[:pre], None if pre % 2 else [], **level)
             for h in handed:
@@ -136,7 +139,16 @@ def run(ctx, P):
         pos = pre
         for k, c in enumerate(chunks):
             if guest and k == len(chunks) - 1:
+                # maintenance aimed at the guest alone, then it leaves: the members' readings stay what they were
+                stay = [nm for nm in hx.indicators if nm != handed[-1].name]
+                was = {nm: hx.reading_as_list(nm) for nm in stay}
+                hx.recalculate(handed[-1].name)
+                ctx.equal("members untouched by recalculate(guest)" + lab, {nm: hx.reading_as_list(nm) for nm in stay}, was)
+                hx.purge(handed[-1].name)
+                hx.calculate(handed[-1].name)
+                ctx.equal("members untouched by purge(guest) + calculate(guest)" + lab, {nm: hx.reading_as_list(nm) for nm in stay}, was)
                 hx.remove_indicator(handed[-1].name)
+                ctx.equal("members untouched by remove_indicator(guest)" + lab, {nm: hx.reading_as_list(nm) for nm in stay}, was)
             part = src[pos:pos + c]
             hx.append(part if c > 1 else part[0])
             pos += c
